@@ -1,6 +1,6 @@
 // Driver for C20 (WriterReq.tla): every step of a plan is one message class chosen by TLC
 // (op kind x live/dropped parent x live/dropped list members x malformed pack shapes x failing
-// downstream).  Inside the class the concrete field contents (names, index parameters, partition
+// downstream x name mapping none / covering the message's object / not covering it x grant / revoke).  Inside the class the concrete field contents (names, index parameters, partition
 // lists, replica numbers, user/role/privilege tuples, passwords, schemas, properties, ids and
 // timestamps) are drawn with pgregory.net/rapid, seeded by VERIF_SEED, the plan's salt and the step.
 //
@@ -9,7 +9,14 @@
 // snapshot of the source message taken BEFORE the call (the builders modify messages in place); the
 // trace carries, per request, the handler method, the replication marker, a classification of the
 // stamp (which source timestamp it equals), the surviving list members as indices into the source
-// list and one equality bit per identity field group.
+// list, the operation type sent (grant / revoke) and one equality bit per identity field group.
+//
+// Name mapping (step field "map"): "cover" installs entries (UpdateNameMappings, as ReplicateEntity does for a task
+// with db / collection mappings) of which at least one matches the object the message is about - collection-level,
+// whole-database or both, one per content sample of the class -, "other" installs entries that do not match it.  The NAME groups
+// ("db", "coll", flush members) are then judged against the image of the source name under a matching entry (the
+// source name itself when none matches); "priv" accepts the source object name / database as well as their image;
+// all other groups stay plain equality with the source.
 package main
 
 import (
@@ -81,6 +88,13 @@ type content struct {
 	PreHop         bool
 	Task           string
 	CollID, PartID int64
+	// name mapping of the task (class "map" of the step)
+	MapCls             string
+	MapShape, OthShape int
+	TDB, WDB, TColl    string
+	ODB, OColl         string
+	TMembers           []string
+	Extra              [][2]string
 }
 
 var nameGen = rapid.StringMatching(`[a-zA-Z][a-zA-Z0-9]{0,9}`)
@@ -296,6 +310,38 @@ func genContent(m map[string]interface{}) *rapid.Generator[*content] {
 		c.PreHop = hx.S(m, "pre") == "hop"
 		c.CollID = rapid.Int64Range(1, 1<<40).Draw(t, "collid")
 		c.PartID = rapid.Int64Range(1, 1<<40).Draw(t, "partid")
+		// the operation type is part of the class when the plan says so (older plans: drawn above)
+		switch hx.S(m, "optype") {
+		case "grant":
+			c.OpFirst = true
+		case "revoke":
+			c.OpFirst = false
+		}
+		c.MapCls = hx.S(m, "map")
+		if c.MapCls == "cover" || c.MapCls == "other" {
+			tn := distinctNames(t, "tgt", 8+nMembers, append([]string{"default"}, names...)...)
+			c.TDB, c.WDB, c.TColl, c.ODB, c.OColl = tn[0], tn[1], tn[2], tn[3], tn[4]
+			c.TMembers = tn[8:]
+			// the shape of the entries is stratified over the class's samples (salts 1, 2, 3 = all three covering shapes),
+			// not drawn: 0 collection-level, 1 whole database, 2 both; non-covering shapes rotate with the seed
+			c.MapShape = hx.I(m, "salt") % 3
+			c.OthShape = (hx.I(m, "salt") + int(hx.Seed()%4)) % 4
+			if rapid.IntRange(0, 3).Draw(t, "tsamedb") == 0 {
+				c.TDB = "" // collection-level entry that renames inside the source database (resolved in buildMapping)
+			}
+			nExtra := rapid.IntRange(0, 2).Draw(t, "nextra")
+			for i := 0; i < nExtra; i++ {
+				c.Extra = append(c.Extra, [2]string{tn[5+i] + ".*", tn[7] + ".*"})
+			}
+			if kind == "OperatePrivilege" {
+				// a privilege on a collection (or on "*" = every collection) of a database the mapping can talk about
+				c.PrivDB = []string{"", "default", names[0]}[rapid.IntRange(0, 2).Draw(t, "privdbmode")]
+				c.ObjName = []string{names[1], "*"}[rapid.IntRange(0, 1).Draw(t, "objnamemode")]
+				if c.MapCls == "cover" {
+					c.ObjType = "Collection"
+				}
+			}
+		}
 		return c
 	})
 }
@@ -421,6 +467,148 @@ func unknownMsg(c *content, ts uint64) msgstream.TsMsg {
 	}
 }
 
+// ---------------------------------------------------------------- name mapping
+
+type nm struct{ db, coll string }
+
+// objectsOf: the (database, collection) objects a message of this kind is about ("" = the database itself)
+func objectsOf(kind string, c *content) []nm {
+	switch kind {
+	case "CreateDatabase", "DropDatabase", "AlterDatabase":
+		return []nm{{canonDB(c.DB), ""}}
+	case "Flush":
+		res := []nm{}
+		for _, m := range c.Members {
+			res = append(res, nm{canonDB(c.DB), m})
+		}
+		return res
+	case "OperatePrivilege":
+		return []nm{{canonDB(c.PrivDB), c.ObjName}}
+	case "CreateCredential", "DeleteCredential", "UpdateCredential", "CreateRole", "DropRole", "OperateUserRole", "na":
+		return nil
+	}
+	return []nm{{canonDB(c.DB), c.Coll}}
+}
+
+// buildMapping: the entries handed to UpdateNameMappings for the step's class
+func buildMapping(kind string, c *content) map[string]string {
+	if c.MapCls != "cover" && c.MapCls != "other" {
+		return nil
+	}
+	objs := objectsOf(kind, c)
+	e := map[string]string{}
+	for _, x := range c.Extra {
+		e[x[0]] = x[1]
+	}
+	if c.MapCls == "other" || len(objs) == 0 {
+		if len(objs) == 0 { // no database / collection object at all: any entry, also one of the default database
+			switch c.OthShape {
+			case 0:
+				e[c.ODB+".*"] = c.WDB + ".*"
+			case 1:
+				e["default.*"] = c.WDB + ".*"
+			case 2:
+				e["default."+c.OColl] = c.WDB + "." + c.TColl
+			default:
+				e[c.ODB+"."+c.OColl] = c.WDB + "." + c.TColl
+			}
+			return e
+		}
+		o := objs[0]
+		switch {
+		case c.OthShape == 1 && o.coll != "" && o.coll != "*": // the same collection name in another database
+			e[c.ODB+"."+o.coll] = c.WDB + "." + c.TColl
+		case c.OthShape == 2 && o.coll != "": // another collection of the same database
+			e[o.db+"."+c.OColl] = c.WDB + "." + c.TColl
+		case c.OthShape == 3: // another database replicated INTO the source's database name
+			e[c.ODB+".*"] = o.db + ".*"
+		default:
+			e[c.ODB+".*"] = c.WDB + ".*"
+		}
+		return e
+	}
+	tdb := c.TDB
+	shape := c.MapShape
+	if objs[0].coll == "" || objs[0].coll == "*" {
+		shape = 1 // a database (or every collection of it) is covered by the whole-database entry only
+	}
+	if tdb == "" && shape == 0 {
+		tdb = objs[0].db // rename inside the database
+	} else if tdb == "" {
+		tdb = c.WDB
+	}
+	for i, o := range objs {
+		tcoll := c.TColl
+		if kind == "Flush" {
+			tcoll = c.TMembers[i]
+		}
+		switch shape {
+		case 0:
+			e[o.db+"."+o.coll] = tdb + "." + tcoll
+		case 1:
+			e[o.db+".*"] = tdb + ".*"
+		default:
+			e[o.db+"."+o.coll] = tdb + "." + tcoll
+			if kind == "Flush" {
+				e[o.db+".*"] = tdb + ".*" // one flush request names one database
+			} else {
+				e[o.db+".*"] = c.WDB + ".*"
+			}
+		}
+	}
+	return e
+}
+
+// images: what the mapping makes of a source name - the image under every matching entry (C09 decides which of them;
+// here any is accepted), the name itself when no entry matches
+func images(entries map[string]string, db, coll string) []nm {
+	db = canonDB(db)
+	res := []nm{}
+	for s, t := range entries {
+		sd, sc := util.GetCollectionNameFromFull(s)
+		td, tc := util.GetCollectionNameFromFull(t)
+		if sd != db {
+			continue
+		}
+		if coll != "" && sc == coll {
+			res = append(res, nm{td, tc})
+		} else if sc == "*" {
+			res = append(res, nm{td, coll})
+		}
+	}
+	if len(res) == 0 {
+		res = append(res, nm{db, coll})
+	}
+	return res
+}
+
+func dbIn(got string, imgs []nm) bool {
+	for _, x := range imgs {
+		if canonDB(got) == x.db {
+			return true
+		}
+	}
+	return false
+}
+
+func collIn(got string, imgs []nm) bool {
+	for _, x := range imgs {
+		if got == x.coll {
+			return true
+		}
+	}
+	return false
+}
+
+func mappingList(e map[string]string) []string {
+	res := []string{}
+	for k, v := range e {
+		res = append(res, k+"->"+v)
+	}
+	sort.Strings(res)
+	return res
+}
+
 // ---------------------------------------------------------------- comparison helpers
 
 func canonDB(s string) string {
@@ -498,6 +686,22 @@ func schemaEq(src *schemapb.CollectionSchema, g *schemapb.CollectionSchema, full
 	return true
 }
 
+// listIdxImg: as listIdx for member COLLECTIONS under a name mapping (a member counts when it is named by an image of it)
+func listIdxImg(got []string, entries map[string]string, db string, src []string) []int {
+	res := []int{}
+	for _, g := range got {
+		k := 0
+		for i, s := range src {
+			if collIn(g, images(entries, db, s)) {
+				k = i + 1
+				break
+			}
+		}
+		res = append(res, k)
+	}
+	return res
+}
+
 type stampCands struct {
 	names []string
 	vals  []uint64
@@ -541,6 +745,7 @@ type source struct {
 	members []string
 	rid     bool
 	c       *content
+	entries map[string]string
 }
 
 func compare(s *source, call *wfake2.Call, cands stampCands) hx.Event {
@@ -551,45 +756,49 @@ func compare(s *source, call *wfake2.Call, cands stampCands) hx.Event {
 	eq := map[string]bool{"ok": true}
 	list := []int{}
 	c := s.c
+	optype := "na"
+	dbImgs := images(s.entries, c.DB, "")
+	collImgs := images(s.entries, c.DB, c.Coll)
+	collOK := func(got string) bool { return collIn(got, collImgs) }
 	switch p := call.Param.(type) {
 	case *api.CreateDatabaseParam:
-		eq["db"] = canonDB(p.GetDbName()) == canonDB(c.DB)
+		eq["db"] = dbIn(p.GetDbName(), dbImgs)
 		if src, ok := s.req.(*milvuspb.CreateDatabaseRequest); ok {
 			eq["xprops"] = kvOrderedEqual(p.GetProperties(), src.GetProperties())
 		}
 	case *api.DropDatabaseParam:
-		eq["db"] = canonDB(p.GetDbName()) == canonDB(c.DB)
+		eq["db"] = dbIn(p.GetDbName(), dbImgs)
 	case *api.AlterDatabaseParam:
-		eq["db"] = canonDB(p.GetDbName()) == canonDB(c.DB)
+		eq["db"] = dbIn(p.GetDbName(), dbImgs)
 		if src, ok := s.req.(*milvuspb.AlterDatabaseRequest); ok {
 			eq["xprops"] = kvOrderedEqual(p.GetProperties(), src.GetProperties())
 		}
 	case *api.FlushParam:
-		list = listIdx(p.GetCollectionNames(), s.members)
+		list = listIdxImg(p.GetCollectionNames(), s.entries, c.DB, s.members)
 	case *api.CreateIndexParam:
-		eq["coll"] = p.GetCollectionName() == c.Coll
+		eq["coll"] = collOK(p.GetCollectionName())
 		eq["index"] = p.GetIndexName() == c.Index
 		eq["field"] = p.GetFieldName() == c.Field
 		eq["iparams"] = kvEqual(p.GetExtraParams(), c.Params)
 	case *api.DropIndexParam:
-		eq["coll"] = p.GetCollectionName() == c.Coll
+		eq["coll"] = collOK(p.GetCollectionName())
 		eq["index"] = p.GetIndexName() == c.Index
 		eq["field"] = p.GetFieldName() == c.Field
 	case *api.AlterIndexParam:
-		eq["coll"] = p.GetCollectionName() == c.Coll
+		eq["coll"] = collOK(p.GetCollectionName())
 		eq["index"] = p.GetIndexName() == c.Index
 		eq["iparams"] = kvEqual(p.GetExtraParams(), c.Params)
 	case *api.LoadCollectionParam:
-		eq["coll"] = p.GetCollectionName() == c.Coll
+		eq["coll"] = collOK(p.GetCollectionName())
 		eq["replica"] = p.GetReplicaNumber() == c.Replica
 	case *api.ReleaseCollectionParam:
-		eq["coll"] = p.GetCollectionName() == c.Coll
+		eq["coll"] = collOK(p.GetCollectionName())
 	case *api.LoadPartitionsParam:
-		eq["coll"] = p.GetCollectionName() == c.Coll
+		eq["coll"] = collOK(p.GetCollectionName())
 		eq["replica"] = p.GetReplicaNumber() == c.Replica
 		list = listIdx(p.GetPartitionNames(), s.members)
 	case *api.ReleasePartitionsParam:
-		eq["coll"] = p.GetCollectionName() == c.Coll
+		eq["coll"] = collOK(p.GetCollectionName())
 		list = listIdx(p.GetPartitionNames(), s.members)
 	case *api.CreateUserParam:
 		eq["user"] = p.GetUsername() == c.User
@@ -607,14 +816,37 @@ func compare(s *source, call *wfake2.Call, cands stampCands) hx.Event {
 		eq["user"] = p.GetUsername() == c.User
 		eq["role"] = p.GetRoleName() == c.Role
 		eq["optype"] = (p.GetType() == milvuspb.OperateUserRoleType_AddUserToRole) == c.OpFirst
+		switch p.GetType() {
+		case milvuspb.OperateUserRoleType_AddUserToRole:
+			optype = "grant"
+		case milvuspb.OperateUserRoleType_RemoveUserFromRole:
+			optype = "revoke"
+		default:
+			optype = "other"
+		}
 	case *api.OperatePrivilegeParam:
 		e := p.GetEntity()
 		eq["role"] = e.GetRole() != nil && e.GetRole().GetName() == c.Role
-		eq["priv"] = e.GetObject() != nil && e.GetObject().GetName() == c.ObjType && e.GetObjectName() == c.ObjName &&
-			e.GetGrantor().GetPrivilege() != nil && e.GetGrantor().GetPrivilege().GetName() == c.Priv && e.GetDbName() == c.PrivDB
+		// the object: named as in the source, or - a collection object under a name mapping - by its image
+		objOK := e.GetObjectName() == c.ObjName && e.GetDbName() == c.PrivDB
+		if !objOK && len(s.entries) > 0 && c.ObjType == "Collection" {
+			for _, img := range images(s.entries, c.PrivDB, c.ObjName) {
+				objOK = objOK || (canonDB(e.GetDbName()) == img.db && e.GetObjectName() == img.coll)
+			}
+		}
+		eq["priv"] = e.GetObject() != nil && e.GetObject().GetName() == c.ObjType && objOK &&
+			e.GetGrantor().GetPrivilege() != nil && e.GetGrantor().GetPrivilege().GetName() == c.Priv
 		eq["optype"] = (p.GetType() == milvuspb.OperatePrivilegeType_Grant) == c.OpFirst
+		switch p.GetType() {
+		case milvuspb.OperatePrivilegeType_Grant:
+			optype = "grant"
+		case milvuspb.OperatePrivilegeType_Revoke:
+			optype = "revoke"
+		default:
+			optype = "other"
+		}
 	case *api.CreateCollectionParam:
-		eq["coll"] = p.Schema != nil && p.Schema.CollectionName == c.Coll
+		eq["coll"] = p.Schema != nil && collOK(p.Schema.CollectionName)
 		var gs *schemapb.CollectionSchema
 		if p.Schema != nil {
 			gs = p.Schema.ProtoMessage()
@@ -625,7 +857,7 @@ func compare(s *source, call *wfake2.Call, cands stampCands) hx.Event {
 		// (field "SchemaProto"): then the proto must be fully equal and the SDK form equal in all it can express
 		if f := reflect.ValueOf(p).Elem().FieldByName("SchemaProto"); f.IsValid() && f.Kind() == reflect.Ptr && !f.IsNil() {
 			if sp, ok := f.Interface().(*schemapb.CollectionSchema); ok {
-				eq["schema"] = schemaEq(s.info.Schema, sp, true) && eq["schemabasic"] && sp.GetName() == c.Coll
+				eq["schema"] = schemaEq(s.info.Schema, sp, true) && eq["schemabasic"] && collOK(sp.GetName())
 				eq["schemabasic"] = eq["schemabasic"] && schemaEq(s.info.Schema, sp, false)
 			}
 		}
@@ -639,16 +871,17 @@ func compare(s *source, call *wfake2.Call, cands stampCands) hx.Event {
 		}
 		eq["props"] = props
 	case *api.DropCollectionParam:
-		eq["coll"] = p.CollectionName == c.Coll
+		eq["coll"] = collOK(p.CollectionName)
 	case *api.CreatePartitionParam:
-		eq["coll"] = p.CollectionName == c.Coll
+		eq["coll"] = collOK(p.CollectionName)
 		eq["part"] = p.PartitionName == c.Part
 	case *api.DropPartitionParam:
-		eq["coll"] = p.CollectionName == c.Coll
+		eq["coll"] = collOK(p.CollectionName)
 		eq["part"] = p.PartitionName == c.Part
 	}
 	ev["eq"] = eq
 	ev["list"] = list
+	ev["optype"] = optype
 	return ev
 }
 
@@ -741,8 +974,13 @@ func runStep(p *hx.Plan, idx int, st map[string]interface{}) hx.Event {
 	}
 	w := writer.NewChannelWriter(h, meta, cfg, dropped, "milvus")
 	ctx := context.Background()
+	entries := buildMapping(kind, c)
+	if len(entries) > 0 {
+		// ReplicateEntity.UpdateMapping: the task's db / collection mappings reach the writer this way
+		w.(*writer.ChannelWriter).UpdateNameMappings(entries)
+	}
 
-	src := &source{kind: kind, members: c.Members, rid: rid, c: c}
+	src := &source{kind: kind, members: c.Members, rid: rid, c: c, entries: entries}
 	var err error
 	ret := "na"
 	via := "driver"
@@ -850,10 +1088,20 @@ func runStep(p *hx.Plan, idx int, st map[string]interface{}) hx.Event {
 	if members == nil {
 		members = []string{}
 	}
+	mapCls, opCls := hx.S(st, "map"), hx.S(st, "optype")
+	if mapCls == "" {
+		mapCls = "none"
+	}
+	if opCls == "" {
+		opCls = "na"
+		if kind == "OperateUserRole" || kind == "OperatePrivilege" {
+			opCls = map[bool]string{true: "grant", false: "revoke"}[c.OpFirst]
+		}
+	}
 	return hx.Event{
 		"m": hx.Event{"shape": shape, "kind": kind, "obj": obj, "members": members, "fail": fail,
-			"schema": hx.S(st, "schema"), "rid": rid},
-		"calls": calls, "err": err != nil, "ret": ret, "probes": probes, "via": via,
+			"schema": hx.S(st, "schema"), "rid": rid, "map": mapCls, "optype": opCls},
+		"calls": calls, "err": err != nil, "ret": ret, "probes": probes, "via": via, "mapping": mappingList(entries),
 	}
 }
 
